@@ -347,8 +347,20 @@ fn one_case(sh: &mut Shard, tape: &[u32], cfg: &GenCfg) -> Result<(), Violation>
     let rule_cell = t.raw();
     let mode = t.choose(3); // 0 = one site, 1 = random subset, 2 = all sites
     let which = t.raw();
+    let with_calls = t.chance(1, 4);
+    let joined = t.chance(1, 4);
     let used = t.used();
-    let prog: Program = Gen::new(&tape[used.min(tape.len())..], cfg).core_program();
+    let prog: Program = if with_calls {
+        // loops whose bodies call subprograms with loops of their own (only the main module is rewritten)
+        let mut c2 = GenCfg::core(8, 2);
+        c2.procs = true;
+        c2.data = false;
+        c2.deftypes = false;
+        c2.errors = cfg.errors;
+        Gen::new(&tape[used.min(tape.len())..], &c2).calls_program()
+    } else {
+        Gen::new(&tape[used.min(tape.len())..], cfg).core_program()
+    };
     // choose among the rules that have an eligible site; the spelling rules (first seven) weigh three times a context rule
     let mut menu: Vec<&str> = vec![];
     for (k, r) in RULES.iter().enumerate() {
@@ -376,13 +388,22 @@ fn one_case(sh: &mut Shard, tape: &[u32], cfg: &GenCfg) -> Result<(), Violation>
         sh.discard("no eligible site for the drawn rule");
         return Ok(());
     }
-    let lay = Layout::plain();
+    // a quarter of the cases put neighbouring statements and loop lines on one line (FOR I = 1 TO 2: PRINT I: NEXT)
+    let mut lay = Layout::plain();
+    if joined {
+        lay.colons = 600;
+        lay.seed = which as u64;
+        sh.class("layout:colon-joined");
+    }
     let ro = render(&prog, &lay);
     let rn = render(&new_prog, &lay);
     let rows: Vec<u32> = applied.iter().filter_map(|p| ro.sites.get(&site_key(p))).map(|s| s.row).collect();
     sh.journal(&rn.text);
     let (executed, printed) = compare(&ro.text, &rn.text, rule, &rows)?;
     sh.class(&format!("rule:{}", rule));
+    if with_calls {
+        sh.class("base:program-with-subprograms");
+    }
     sh.class(match mode {
         0 => "sites:one",
         1 => "sites:subset",
